@@ -41,12 +41,11 @@
 (* counter) is the subject of AccessorCache.tla; here it is abstracted to  *)
 (* atomic steps on {refs, isClosed}.                                       *)
 (***************************************************************************)
-EXTENDS Integers, Sequences, FiniteSets, TLC
+EXTENDS Integers, Sequences, FiniteSets, TLC, StoreSeq      \* StoreSeq: EmptyHeights, IsEmptyH, Apply
 
 CONSTANTS
     Threads,          \* set of thread ids (naturals >= 1)
     DataHeights,      \* heights holding distinct non-empty blocks
-    EmptyHeights,     \* heights holding the empty block
     HStripe,          \* [Heights -> Nat]  height-lock stripe   (height mod 1024)
     XStripe,          \* [Heights -> Nat]  hash-lock stripe     (last two bytes of the data hash mod 1024)
     Menu,             \* [Threads -> SUBSET OpKinds]  which operations a thread may start
@@ -61,7 +60,6 @@ CONSTANTS
     AllowTimeout      \* TRUE: the close time-out may fire (references ignored)
 
 Heights == DataHeights \cup EmptyHeights
-IsEmptyH(h) == h \in EmptyHeights
 OpKinds == {"PutODSQ4", "PutODS", "RemoveODSQ4", "RemoveQ4", "Get", "CachedGet", "Has"}
 Writers == {"PutODSQ4", "PutODS", "RemoveODSQ4", "RemoveQ4"}
 AccIds == 1..MaxAcc
@@ -94,17 +92,7 @@ VARIABLES
 vars == <<ods, q4, lnk, acc, c1, c2, hl, xl, pc, op, nops, hnd, res, model, bad>>
 
 ----------------------------------------------------------------------------
-(* Sequential specification: the content of one height after an operation.  *)
-Apply(s, k, h) ==
-    IF IsEmptyH(h)
-      THEN CASE k \in {"PutODSQ4", "PutODS"} -> "linked"
-             [] k = "RemoveODSQ4"             -> "absent"
-             [] OTHER                         -> s
-      ELSE CASE k = "PutODSQ4"    -> "odsq4"
-             [] k = "PutODS"      -> IF s = "absent" THEN "ods" ELSE s
-             [] k = "RemoveODSQ4" -> "absent"
-             [] k = "RemoveQ4"    -> IF s = "odsq4" THEN "ods" ELSE s
-             [] OTHER             -> s
+(* The sequential specification Apply(s, k, h) is in StoreSeq.tla.            *)
 
 \* what the directory says about a height
 FileAbs(h) ==
